@@ -228,15 +228,18 @@ def run_graph_names(a):
     rnd = random.Random(seed)
     files, expected, info = c07.gen_case(rnd, idx)
     names = {}
+    tnames = {}
     for mode in ("none", "zod"):
         g = proj.generate(cli, files, mode=mode, tag="c10g")
         try:
             if g.run.rc != 0 or g.output.mods.get("types.ts") is None or g.output.mods["types.ts"].errors:
                 return {"blocked": True}
             names[mode] = sorted(c07.declared(g.output, mode, keep=info["all"]))
+            # the names usable as TYPES (what commands.ts / events.ts and the frontend spell as types.X): interfaces and type aliases
+            tnames[mode] = sorted({it["name"] for it in g.output.items("types.ts") if it["kind"] in ("interface", "type")})
         finally:
             g.cleanup()
-    return {"none": names["none"], "zod": names["zod"], "files": [[p, t] for p, t in files], "n": info["n"]}
+    return {"none": names["none"], "zod": names["zod"], "tnone": tnames["none"], "tzod": tnames["zod"], "files": [[p, t] for p, t in files], "n": info["n"]}
 
 
 def run(tier):
@@ -364,6 +367,10 @@ def run(tier):
         if r["none"] != r["zod"]:
             v.violation("C10 type-name-sets-differ project only-%s" % ("plain" if set(r["none"]) - set(r["zod"]) else "zod"),
                         "plain mode declares %s, Zod mode declares %s" % (sorted(set(r["none"]) - set(r["zod"])), sorted(set(r["zod"]) - set(r["none"]))),
+                        {"files": r["files"], "mode": "both"})
+        if r["tnone"] != r["tzod"]:
+            v.violation("C10 type-level-name-sets-differ project only-%s" % ("plain" if set(r["tnone"]) - set(r["tzod"]) else "zod"),
+                        "as types (interface / type alias), plain mode declares %s and Zod mode declares %s" % (sorted(set(r["tnone"]) - set(r["tzod"])), sorted(set(r["tzod"]) - set(r["tnone"]))),
                         {"files": r["files"], "mode": "both"})
     v.extra["serde_sample_types"] = len(sample)
     rule = ("a case is one Rust type expression placed at the field and parameter sites of a project generated in both modes; non-trivial = "
